@@ -55,7 +55,37 @@ def method_models():
 def _sizes(ev, o, node):
     """Symbolic extent of every current dimension, computed from the lineage (pre-padding, slices, renames)."""
     if o.name == "CONCAT":
-        raise Unmodelled("size of a concatenation", node)
+        # along the concatenated dimension the pieces add up; afterwards slices / renames applied to the whole
+        from .affsel import Sel
+
+        cd = o.attrs["dim"]
+        piece_sizes = [_sizes(ev, p, node) for p in o.attrs["parts"] if isinstance(p, Obj)]
+        if not piece_sizes:
+            raise Unmodelled("size of an empty concatenation", node)
+        sizes = {}
+        for d in o.attrs.get("dims0") or o.attrs.get("dims", ()):
+            if d == cd:
+                tot = Lin.of(0)
+                for ps in piece_sizes:
+                    tot = tot + Lin.of(ps.get(d, 1))
+                sizes[d] = tot
+            else:
+                sizes[d] = next((ps[d] for ps in piece_sizes if d in ps), None)
+        for e in o.eff:
+            if e[0] == "isel":
+                for d, ix in (xr_mapping_arg("isel", e[1:2] if isinstance(e[1], dict) else e[1], e[2] if len(e) > 2 else ()) or (e[1] if isinstance(e[1], dict) else {})).items():
+                    if isinstance(ix, SliceV) and d in sizes and sizes[d] is not None:
+                        sizes[d] = Sel(0, 1, sizes[d]).slice(ix).count
+                    elif d in sizes:
+                        del sizes[d]
+            elif e[0] == "rename":
+                m = e[1] if isinstance(e[1], dict) else {}
+                sizes = {m.get(d, d): v for d, v in sizes.items()}
+            elif e[0] in ("squeeze", "drop_vars", "assign_coords", "copy", "reset_coords", "reset_index", "transpose", "expand_dims"):
+                continue
+            else:
+                raise Unmodelled(f"size after `{e[0]}` on a concatenation", node)
+        return {d: v for d, v in sizes.items() if v is not None}
     st = interpret(o, FACE, axis_of_dim)
     out = {}
     for d in o.attrs.get("dims", ()):
